@@ -42,6 +42,7 @@ def _strip_props(text):
 
 def _witnesses(base_cfg, wd, with_al):
     base = _strip_props(open(os.path.join(vlib.SPECS, base_cfg)).read())
+    base = re.sub(r"(?m)^  MaxChunks = \d+", "  MaxChunks = 2", base)  # witnesses exist already in the smallest instance
     jobs = {}
     names = list(WITNESSES) + (["W_NoAlClosed"] if with_al else [])
     remote_w = {"W_NoResume", "W_NoLossInFlight", "W_NoRemoteRestart", "W_NoAlClosed"}
@@ -55,7 +56,7 @@ def _witnesses(base_cfg, wd, with_al):
 
     def one(item):
         name, text = item
-        r = vlib.tlc("Results", "wit_%s.cfg" % name, wd, timeout=900, workers=4, cfg_text=text)
+        r = vlib.tlc("Results", "wit_%s.cfg" % name, wd, timeout=900, workers=2, cfg_text=text)
         if name.startswith("KF_"):
             ok = bool(re.search(r"Temporal propert(y EndsWhenDone was|ies were) violated", r.output)) and '"Canceled"' in r.output
         else:
@@ -63,7 +64,7 @@ def _witnesses(base_cfg, wd, with_al):
         return name, ok, r
 
     out = []
-    with cf.ThreadPoolExecutor(max_workers=4) as ex:
+    with cf.ThreadPoolExecutor(max_workers=6) as ex:
         for name, ok, r in ex.map(one, jobs.items()):
             if not ok:
                 raise vlib.Inconclusive("witness %s not found (vacuity): exit %s\n%s" % (name, r.exit, r.output[-1500:]))
@@ -77,6 +78,8 @@ def run(tier, seed, replay=None):
     quick = tier == "quick"
     cfg = "Results_quick.cfg" if quick else "Results_full.cfg"
     t0 = time.time()
+    ex = cf.ThreadPoolExecutor(max_workers=3)
+    fw = ex.submit(_witnesses, "Results_quick.cfg", wd, False)   # independent of the main run: start at once
     r = vlib.tlc("Results", cfg, wd, timeout=2400, heap="12g", workers=min(8, vlib.NCPU) if quick else None)
     vlib.log("TLC %s: %d distinct / %d generated states, depth %d, %.0fs" % (cfg, r.distinct, r.generated, r.depth, r.wall))
     if not r.ok:
@@ -105,19 +108,18 @@ def run(tier, seed, replay=None):
         largs += ["-groups", "12", "-cancel-groups", "1", "-par", "6"]
         rargs += ["-scenarios", "6", "-par", "6"]
     else:
-        largs += ["-groups", "150", "-cancel-groups", "6", "-par", "8"]
-        rargs += ["-scenarios", "48", "-par", "8"]
+        largs += ["-groups", "600", "-cancel-groups", "12", "-par", "8"]
+        rargs += ["-scenarios", "0", "-par", "8"]
 
-    with cf.ThreadPoolExecutor(max_workers=3) as ex:
-        fw = ex.submit(_witnesses, "Results_quick.cfg", wd, False)
-        fl = ex.submit(vlib.harness_json, vres, largs, wd, 2400, None, "local") if largs else None
-        fr = ex.submit(vlib.harness_json, vres, rargs, wd, 2400, None, "remote") if rargs else None
-        wit = fw.result()
-        vlib.log("witnesses found: %d (%.0fs since start)" % (len(wit), time.time() - t0))
-        lres = fl.result() if fl else None
-        vlib.log("local part done (%.0fs since start)" % (time.time() - t0))
-        rres = fr.result() if fr else None
-        vlib.log("remote part done (%.0fs since start)" % (time.time() - t0))
+    fl = ex.submit(vlib.harness_json, vres, largs, wd, 3000, None, "local") if largs else None
+    fr = ex.submit(vlib.harness_json, vres, rargs, wd, 3000, None, "remote") if rargs else None
+    lres = fl.result() if fl else None
+    vlib.log("local part done (%.0fs since start)" % (time.time() - t0))
+    rres = fr.result() if fr else None
+    vlib.log("remote part done (%.0fs since start)" % (time.time() - t0))
+    wit = fw.result()
+    vlib.log("witnesses found: %d (%.0fs since start)" % (len(wit), time.time() - t0))
+    ex.shutdown()
 
     inconclusive = []
     for name, res in (("local", lres), ("remote", rres)):
@@ -165,7 +167,7 @@ def run(tier, seed, replay=None):
     return v.finish("model_checking", cov, assumptions=[
         "payloads write to stdout only while they run (no background writer survives the payload); the runner records the final size after the payload has exited",
         "the remote daemon is not restarted while the unit's record still says Pending (command.go Restart would mark it Failed: C04/C13 territory)",
-        "faults are repaired within seconds; 'stream never ends' is judged 20 s after completion once the daemon itself confirms the final state on a fresh connection",
+        "faults are repaired within seconds; 'stream never ends' is judged 30 s after completion once the daemon itself confirms the final state on a fresh connection",
         "a convergence deadline without a definite wrong value is inconclusive (exit 2), never a violation",
         "cancelled counts as finished (C13's wording) for EndsWhenDone",
     ])
